@@ -271,18 +271,24 @@ def definition_table(fb):
         selfv = fresh_fields(fb)
         selfv[fields.index("env")] = importer_env
         VA, VB = Val("value-of-a"), Val("value-of-b")
-        bound = {"a": VA, "b": VB, "hidden": Val("value-of-hidden")}
-        if scenario == "export-unbound":
-            del bound["b"]
+        # what the library's environment binds changes as its declarations are processed: the import binds `a` (to what the imported
+        # library exports), the first body statement defines `a` anew and `hidden`, the second defines `b` — the interface is what
+        # the names denote when the body is done
+        bound = {}
         ev = []
         frames = []
 
-        def icpt(mc, c, a, tt, g):
+        def icpt(mc, c, a, tt, g, scenario=scenario):
             if c == ITP + "eval_import":
                 ev.append(("import", a[1], a[2]))
+                bound["a"] = Val("imported-binding-of-a")
                 return ok([])
             if c == ITP + "eval_expression_or_definition":
                 ev.append(("eval", a[1], a[2]))
+                if a[1] is S1:
+                    bound["a"], bound["hidden"] = VA, Val("value-of-hidden")
+                elif a[1] is S2 and scenario != "export-unbound":
+                    bound["b"] = VB
                 return ok(none())
             if c == "environment::LexicalScope::new":
                 fr = Val("fresh-root-env-%d" % len(frames))
